@@ -179,6 +179,37 @@ fn push_step() {
     witness!(!observe, "idle push (skipped)");
 }
 
+/// Two events on one pusher: whether or not the first one is idle, the second one's observations
+/// are published by the same push (an idle sibling must not end the push early).
+fn push_two_events() {
+    let b = [nd::i64(), nd::i64(), nd::i64()];
+    nd::assume(b[0] < b[1] && b[1] < b[2]);
+    unsafe {
+        FOLO_VERIF_MAGS3 = b;
+    }
+    let arr: &'static [Magnitude; 3] = unsafe { &*(&raw const FOLO_VERIF_MAGS3) };
+    let mags: &'static [Magnitude] = &arr[..];
+    let (l0, g0) = (Rc::new(ObservationBag::new(mags)), Arc::new(ObservationBagSync::new(mags)));
+    let (l1, g1) = (Rc::new(ObservationBag::new(mags)), Arc::new(ObservationBagSync::new(mags)));
+    let pusher = MetricsPusher::folo_verif_with_pair(Rc::clone(&l0), Arc::clone(&g0));
+    pusher.folo_verif_add_pair(Rc::clone(&l1), Arc::clone(&g1));
+    let first_active = nd::bool();
+    if first_active {
+        l0.insert(nd::i64(), 1);
+    }
+    let (m, c) = (nd::i64(), nd::usize());
+    nd::assume(c >= 1 && c <= (1 << 32));
+    l1.insert(m, c);
+    pusher.push();
+    let p = nd::usize();
+    nd::assume(p < 3);
+    assert!(g1.folo_verif_count() == l1.count() && g1.folo_verif_sum() == l1.folo_verif_sum() && g1.folo_verif_bucket(p) == l1.folo_verif_bucket(p),
+        "second event published by the push, whether or not the first one was idle");
+    assert!(g0.folo_verif_count() == l0.count() && g0.folo_verif_bucket(p) == l0.folo_verif_bucket(p), "first event published as well");
+    witness!(!first_active, "first event idle");
+    witness!(first_active, "both events active");
+}
+
 fn merge_step() {
     let mags: &'static [Magnitude] = &FOLO_VERIF_MAGS66;
     let a = ObservationBagSync::new(mags);
@@ -239,6 +270,10 @@ harnesses! {
     // @verif id=C16 tier=quick timeout=1200 mem=12 expect=pass covers=2
     // @bounds MetricsPusher::push; [insert(m,c<=2^32)]; push with one registered pair (3 symbolic bounds) from an arbitrary invariant state: published = local, idle pushes skipped safely
     fn c16_push_skip_heuristic [unwind 6] { push_step() }
+
+    // @verif id=C16 tier=quick timeout=900 mem=12 expect=pass covers=2
+    // @bounds MetricsPusher::push with TWO registered events (3 symbolic bounds): the first idle or active (solver-chosen), the second with one batch: both published
+    fn c16_push_two_events [unwind 6] { push_two_events() }
 
     // @verif id=C16 tier=quick timeout=900 mem=10 expect=pass
     // @bounds ObservationBagSync::merge_from (66 buckets), arbitrary counts, observed at an arbitrary bucket
